@@ -95,8 +95,8 @@ def asm_programs():
     P.append(('svc-exit-after-write', _HDR % 68 + 'LDAC 1\nOPR SVC\nLDAC 0\nOPR SVC\n', [b'']))
     P.append(('svc-read-write-interleaved', _HDR % 69 + 'LDAC 2\nOPR SVC\nLDAC 1\nOPR SVC\nOPR SVC\nLDAC 2\nOPR SVC\nOPR SVC\nLDAC 0\nOPR SVC\n', [b'abc', b'']))
 
-    # a symbol table after the image (PROC/FUNC) and a read of the word just after the image: outside the quantifier (the word
-    # was never written) -- hexsim reads 0 there, the testbench whatever its memory holds; run and reported, not judged
+    # a symbol table after the image (PROC/FUNC) and a read of the word just after the image (never written): hexsim reads 0
+    # there, and so does the testbench since load() clears its memory and does not load the table; an ordinary judged input
     P.append(('symtab-read-past-image', 'BR start\nDATA 1\nDATA 0\nDATA 72\nDATA 0\nPROC start\nLDAC last\nLDAI 1\nSTAM 3\nLDAC 1\nOPR SVC\nLDAC 0\nOPR SVC\nlast\nDATA 0\n', [b'']))
 
     def wide(tests):
